@@ -2070,11 +2070,76 @@ func (iv *Inv) nonNegOK(fn *ssa.Function, at ssa.Instruction, v ssa.Value) (bool
 
 // coinsWellFormed: the variadic Coin arguments are NewCoin results or coins from the bank / validated messages.
 func (iv *Inv) coinsWellFormed(v ssa.Value) (bool, string) {
-	o := iv.tr.Origins(v)
-	if o.HasCall("types.NewCoin") || o.HasCall("GetAllBalances") || o.HasCall("GetBalance") || o.HasCall("LockedCoins") || o.HasCall("TruncateDecimal") {
-		return true, "g5: elements are NewCoin results or bank-provided coins (each NewCoin is its own obligation)"
+	return iv.coinsWellFormedAt(v, 0)
+}
+
+// coinsWellFormedAt: every alternative of the coins is built by the constructors (NewCoin, each its own obligation) or
+// handed out by the bank; a parameter is decided at every caller (a helper that re-wraps what it is handed is as safe as
+// its least careful caller), and coins that arrive in a message must have passed Coins.Validate / IsValid.
+func (iv *Inv) coinsWellFormedAt(v ssa.Value, depth int) (bool, string) {
+	oldRule := func(v ssa.Value) (bool, string) {
+		o := iv.tr.Origins(v)
+		if o.HasCall("types.NewCoin") || o.HasCall("GetAllBalances") || o.HasCall("GetBalance") || o.HasCall("LockedCoins") || o.HasCall("TruncateDecimal") {
+			return true, "g5: elements are NewCoin results or bank-provided coins (each NewCoin is its own obligation)"
+		}
+		return false, "coins of unknown origin: " + o.String()
 	}
-	return false, "coins of unknown origin: " + o.String()
+	// individual elements (`NewCoins(a, b)`): each is a coin built by its own constructor site
+	if len(varargElems(v)) > 0 || depth > 3 {
+		return oldRule(v)
+	}
+	// an existing coin set spread into the constructor (`NewCoins(x...)`): the set itself must be well formed
+	x := normLocal(stripConv(v))
+	if ct, isCT := x.(*ssa.ChangeType); isCT {
+		x = normLocal(ct.X)
+	}
+	if p, ok := x.(*ssa.Parameter); ok {
+		fn := p.Parent()
+		idx := paramIndex(fn, p)
+		callers := iv.w.CG().Callers[fn]
+		if idx >= 0 && len(callers) > 0 {
+			for _, cs := range callers {
+				if cs.Common().IsInvoke() || cs.Static != fn || idx >= len(cs.Common().Args) {
+					return false, "coins handed in through a dynamic call"
+				}
+				if ok, why := iv.coinsWellFormedAt(cs.Common().Args[idx], depth+1); !ok {
+					return false, "handed in by " + funcName(cs.Caller) + ": " + why
+				}
+			}
+			return true, "g5: a well-formed coin set at every call site"
+		}
+		return oldRule(v)
+	}
+	if c, ok := x.(*ssa.Call); ok {
+		n := callName(c.Common())
+		switch {
+		case hasSuffixAny(n, "types.NewCoins", "GetAllBalances", "LockedCoins", "SpendableCoins", "GetVestingCoins", "GetVestedCoins", "GetDelegatedVesting", "GetDelegatedFree", "GetOriginalVesting"):
+			return true, "g5: a coin set built by NewCoins or handed out by the bank / an account"
+		case hasSuffixAny(n, "types.Coins.Sort") && len(c.Common().Args) > 0:
+			return iv.coinsWellFormedAt(c.Common().Args[0], depth+1)
+		}
+	}
+	// a coin set that arrives in a message: validated as a set (IsValid / Validate) on the way?
+	if u, ok := x.(*ssa.UnOp); ok && u.Op == token.MUL {
+		if _, isFA := u.X.(*ssa.FieldAddr); isFA && strings.HasSuffix(typeString(x.Type()), "types.Coins") && rootParam(x) != "" {
+			fn := u.Parent()
+			edges := EdgesWhere(fn, func(base ssa.Value) (bool, bool) {
+				c, isC := base.(*ssa.Call)
+				if !isC || len(c.Common().Args) == 0 || !samePath(c.Common().Args[0], x) {
+					return false, false
+				}
+				if strings.HasSuffix(callName(c.Common()), "types.Coins.IsValid") {
+					return true, true
+				}
+				return false, false
+			})
+			if len(edges) > 0 && MustPass(fn, edges, u.Block()) {
+				return true, "g1: the coin set passed IsValid"
+			}
+			return false, "the coin set arrives in a message field (" + rootParam(x) + ") and is not validated as a set: duplicate or malformed denominations make the constructor panic"
+		}
+	}
+	return oldRule(v)
 }
 
 func (iv *Inv) moduleNameOK(fn *ssa.Function, a ssa.Value, atom string) (bool, string) {
